@@ -1040,7 +1040,7 @@ theorem decoder_table_eq {S : Schema} {B : Bindings} (hwf : WFSchema S) (hA : ag
   obtain ⟨F, rfl⟩ := succ_of_pos (by omega : 1 ≤ fuel)
   simp only [decoderTable, List.append_assoc, readLE4 d.id _ (funcId_lt S hwf _ d hf), he, h3,
     unmarshalGo_named_simple B F _ mm _ hmm,
-    method_unmarshal hwf (typesAgree_of_agreeAll hA) hag ps b rest F hb (by omega), h1, h2]
+    method_unmarshal hwf (typesAgree_of_agreeAll hA) hag ps b rest F hb (by omega), h1, h2, ne_eq, not_true_eq_false, if_false]
 
 theorem errorIdOf_eq {S : Schema} {e : Decl} (he : S.ctor? errorCtor = some e) : errorIdOf S = e.id := by
   simp only [errorCtor] at he
